@@ -62,7 +62,8 @@ def showEv : Ev → String
   | .seq sz pv pf ds hc fc n => s!" S{sz}.{pv}.{pf}.{ds}.{hc}.{fc}.{n}"
 
 def showOut (o : Out) : String :=
-  (match o.status with | none => "end" | some e => "err:" ++ errName e) ++ String.join (o.evs.map showEv)
+  (match o.status with | none => "end" | some e => "err:" ++ errName e) ++ String.join (o.evs.map showEv) ++
+  (match o.status, o.swallowed with | none, some e => " after=" ++ errName e | _, _ => "")
 
 def showOutcome (o : Outcome Out) : String :=
   match o with | .done a => showOut a | .panic => "panic"
@@ -74,7 +75,7 @@ def runOn (a : Args) (s : Sched) (size : Int) : Outcome Out :=
 def reference (a : Args) : Outcome Out := runOn a (contiguous (bytesOf a.schedule)) (Fit.Gen.Reader.defaultReadBufferSize : Int)
 
 def sameOutcome : Outcome Out → Outcome Out → Bool
-  | .done x, .done y => x.evs == y.evs && x.status == y.status
+  | .done x, .done y => x.evs == y.evs && x.status == y.status && x.swallowed == y.swallowed
   | .panic, .panic => true
   | _, _ => false
 
@@ -91,8 +92,20 @@ def hDfrag : Handler := fun r =>
       showOutcome o ++ (if vApplies a then (if sameOutcome o (reference a) then " v=same" else " v=diff") else " v=na")
     | .spec => if vApplies a then showOutcome (reference a) ++ " v=same" else "n/a"
     | .kf =>
-      if vApplies a && truncated (decodeLoop a.chk (a.bytes.length + 1) true []) (bytesOf a.schedule) then "KF-C08-1" else "-"
-    | .prop => "n/a"
+      if vApplies a then
+        (if truncated (decodeLoop a.chk (a.bytes.length + 1) true []) (bytesOf a.schedule) then "KF-C08-1" else "-")
+      else
+        match firstReaderErr (decodeLoop a.chk (a.bytes.length + 1) true []) (RB.fresh a.schedule a.bufSize), runOn a a.schedule a.bufSize with
+        | some _, .done o => if o.status.isNone then "KF-C08-2" else "-"
+        | _, _ => "-"
+    | .prop =>
+      -- C08, second sentence: a failure of the reader that `ReadN` hands to the decoder must come back as the error of the run
+      if vApplies a then "n/a" else
+      match firstReaderErr (decodeLoop a.chk (a.bytes.length + 1) true []) (RB.fresh a.schedule a.bufSize) with
+      | none => "n/a"
+      | some e =>
+        let status := ((r.impl.splitOn " ").filter (· ≠ "")).headD ""
+        if status == "err:" ++ Drv.RBuf.errName e then "ok" else s!"fail:reader-error-{Drv.RBuf.errName e}-not-returned"
 
 def showCi (o : Outcome CiOut) : String :=
   match o with
